@@ -79,3 +79,23 @@ Definition run_case (s : setting) (x : bytes) : obs :=
    (ContentFilterAwareSHA1Provider hashes reader(disk) and compares with the stored text) *)
 Definition run_checkout (s : setting) (x : bytes) : obs :=
   OL [OB (writer s x); obool (bytes_eqb (reader s (writer s x)) x)].
+
+(* ---- large inputs (run-length encoded so that the generated case files stay small) ---- *)
+Fixpoint checksum_aux (i acc : Z) (x : bytes) : Z :=
+  match x with
+  | [] => acc
+  | b :: x' => checksum_aux (i + 1) ((acc + (i mod 251 + 1) * Z.of_N b) mod 1000003)%Z x'
+  end%Z.
+Definition digest (x : bytes) : obs := OL [oN (N.of_nat (List.length x)); OZ (checksum_aux 0 0 x)].
+
+Definition expand (parts : list (N * N)) : bytes :=
+  List.concat (map (fun p => repeat (fst p) (N.to_nat (snd p))) parts).
+
+Definition run_big (s : setting) (parts : list (N * N)) : obs :=
+  let x := expand parts in
+  OL [digest (writer s x); digest (reader s (writer s x)); digest (reader s x);
+      obool (bytes_eqb (reader s (writer s x)) x)].
+
+Definition run_checkout_big (s : setting) (parts : list (N * N)) : obs :=
+  let x := expand parts in
+  OL [digest (writer s x); obool (bytes_eqb (reader s (writer s x)) x)].
